@@ -570,7 +570,7 @@ def run_case(case, cfg):
     results, leftover = explore(fn, unwind=case.unwind, max_paths=case.max_paths, max_decisions=case.max_decisions,
                                 feas_timeout_ms=cfg["feas_timeout_ms"], stats=est,
                                 max_forks_per_site=case.max_forks_per_site, split=case.split,
-                                deadline=t_start + budget * 0.6)
+                                deadline=t_start + budget * 0.6, path_budget_s=max(10.0, budget * 0.25))
     rep["leftover"] = leftover
     rep["paths"] = len(results)
     reached = False
